@@ -900,6 +900,11 @@ def r3(ctx):
     if ban_pnodes:
         reach = cfg.reachable([cfg.entry], avoid=lambda n: n in ban_pnodes)
         for e, d in effs:
+            if isinstance(e, ast.Call) and call_attr(e) in ("collect_acks", "drop_message"):
+                # transport-level ack bookkeeping: the packet was received even if its message is refused (C05.R5
+                # wants it in front of the refusal); what must not happen before the ban check is handler / session /
+                # region state work and the forward
+                continue
             bad = [n for n in (cfg.nodes_for(e) if isinstance(e, ast.stmt) else cfg_nodes(cfg, e)) if n in reach]
             ctx.ob("C06.R3", f"handle_proxied_packet: {d} is dominated by the UDP-ban check", not bad, ctx.w(hp, e),
                    f"reachable without passing `{ban_desc}`: a banned datagram disturbs state before it is discarded")
@@ -1275,6 +1280,7 @@ def r4(ctx):
     # failures of side work must not lose the datagram: a try in front of the forward whose purpose is to
     # contain such a failure keeps a catch-all handler that does not re-raise
     from ..core import handler_catches_all, handler_reraises
+    from .c05 import resolve_method_call as _rmc0
     ntry = 0
     for t in [x for x in walk(hp.node) if isinstance(x, ast.Try) and x.handlers]:
         inside = {id(x) for x in ast.walk(t)}
@@ -1283,6 +1289,13 @@ def r4(ctx):
         tn = [n_ for st_ in t.body for n_ in cfg.nodes_for(st_)] or cfg.nodes_for(t)
         if not any(n_ in cfg.reachable(tn) for n_ in site_nodes):
             continue      # after the forward
+        refusal = False
+        for c_ in calls(ast.Module(body=t.body, type_ignores=[]), into_defs=False):
+            h_ = _rmc0(repo, hp, c_)
+            if h_ is not None and h_ != hp and _raises_when_banned(ctx, h_, c_):
+                refusal = True
+        if refusal:
+            continue      # the UDP-ban refusal: a deliberate discard that re-raises, not side work to contain
         ntry += 1
         contained = any(handler_catches_all(h) and handler_reraises(h) != "always" for h in t.handlers)
         what = norm(t.body[0]) if t.body else "?"
